@@ -32,5 +32,12 @@ def note_option_to_dbml(note: 'Note') -> str:
         return f"note: '{prepare_line_for_dbml(note.text)}'"
 
 
+def name_to_dbml(name: str) -> str:
+    '''A name that is written bare where possible and double-quoted where it has to be'''
+    if re.fullmatch(r'[A-Za-z0-9_]+', name):
+        return name
+    return f'"{name}"'
+
+
 def comment_to_dbml(val: str) -> str:
     return comment(val, '//')
